@@ -379,9 +379,17 @@ impl FixedCapacityMemoryPool {
         self.stats.clone()
     }
 
+    /// Distance between consecutive blocks in the arena: every block must be able to hold
+    /// the free-list header that is written into it while it is free.
+    fn block_stride(&self) -> usize {
+        let a = std::mem::align_of::<BlockHeader>();
+        let min = self.config.max_block_size.max(std::mem::size_of::<BlockHeader>());
+        (min + a - 1) & !(a - 1)
+    }
+
     /// Get total capacity in bytes
     pub fn total_capacity(&self) -> usize {
-        self.config.total_blocks * self.config.max_block_size
+        self.config.total_blocks * self.block_stride()
     }
 
     /// Get available capacity in bytes
@@ -410,8 +418,8 @@ impl FixedCapacityMemoryPool {
 
     /// Allocate backing memory region (for mutable access)
     fn allocate_backing_memory(&mut self) -> Result<()> {
-        let total_size = self.config.total_blocks * self.config.max_block_size;
-        let layout = Layout::from_size_align(total_size, self.config.alignment)
+        let total_size = self.config.total_blocks * self.block_stride();
+        let layout = Layout::from_size_align(total_size, self.config.alignment.max(std::mem::align_of::<BlockHeader>()))
             .map_err(|e| ZiporaError::invalid_data(&format!("Invalid layout: {}", e)))?;
 
         let memory = NonNull::new(unsafe { alloc(layout) })
@@ -430,8 +438,8 @@ impl FixedCapacityMemoryPool {
 
     /// Allocate backing memory region (for shared/const access via UnsafeCell)
     fn allocate_backing_memory_internal(&self) -> Result<()> {
-        let total_size = self.config.total_blocks * self.config.max_block_size;
-        let layout = Layout::from_size_align(total_size, self.config.alignment)
+        let total_size = self.config.total_blocks * self.block_stride();
+        let layout = Layout::from_size_align(total_size, self.config.alignment.max(std::mem::align_of::<BlockHeader>()))
             .map_err(|e| ZiporaError::invalid_data(&format!("Invalid layout: {}", e)))?;
 
         let memory = NonNull::new(unsafe { alloc(layout) })
@@ -474,7 +482,7 @@ impl FixedCapacityMemoryPool {
         let memory = unsafe { (*self.memory.get()).ok_or_else(|| 
             ZiporaError::invalid_data("Memory not allocated"))? };
 
-        let block_size = self.config.max_block_size;
+        let block_size = self.block_stride();
         
         // Initialize all blocks as free in the largest size class
         let largest_class = self.size_classes.len() - 1;
@@ -509,7 +517,7 @@ impl FixedCapacityMemoryPool {
         let memory = unsafe { (*self.memory.get()).ok_or_else(|| 
             ZiporaError::invalid_data("Memory not allocated"))? };
 
-        let block_size = self.config.max_block_size;
+        let block_size = self.block_stride();
         
         // Initialize all blocks as free in the largest size class
         let largest_class = self.size_classes.len() - 1;
